@@ -18,10 +18,10 @@ theorem x8A_nc : x8ACode.all (fun i => !i.mn.isControl) = true := by
 theorem hash8_len : hash8Code.length = 61 := by decide +kernel
 theorem hash8_nc : hash8Code.all (fun i => !i.mn.isControl) = true := by decide +kernel
 
-theorem LadSt.weaken {M2 : List Nat → List Nat → List Region} {dbase dlen tp sp toff : Nat} {W : Nat × Nat × Nat × Nat} {h hf srcLen nl c y : Nat}
+theorem LadSt.weaken {M2 : List Nat → List Nat → List Region} {dbase dlen tp sp toff : Nat} {W : Nat × Nat × Nat × Nat} {h hf : Nat} {srcLen : List Nat} {nl c y : Nat}
     {dc tc : List Nat} {s : State} (st : LadSt M2 dbase dlen tp sp toff W h hf srcLen nl c y dc tc s) (nl' : Nat) (hn : nl' ≤ nl) :
     LadSt M2 dbase dlen tp sp toff W h hf srcLen nl' c y dc tc s :=
-  ⟨st.pc, st.gh, st.rkp, st.g0, st.g9, st.g10, st.g13, st.g6, fun l hl => st.ctr l (by omega), st.acc, st.acclt, st.mem, st.hdc, st.htc⟩
+  ⟨st.pc, st.gh, st.rkp, st.g0, st.g9, st.g10, st.g13, st.g6, fun l hl => st.ctr l (by omega), st.acc, st.acclt, st.mem, st.hdc, st.htc, st.srcOK⟩
 
 set_option maxHeartbeats 1000000 in
 /-- **`loopX8`**, when at least 128 bytes remain -/
@@ -32,9 +32,9 @@ theorem x8_step (r : Routine) (k b : Nat) (hs : Slice r k (ladX8Code b))
     (hrk : rk.length = 32) (hrkb : ∀ x ∈ rk, x < 2 ^ 32) (hjb : jb.length = 16) (hjbb : ∀ x ∈ jb, x < 2 ^ 8) (hsb : ∀ x ∈ src, x < 2 ^ 8)
     (hsp : sp + src.length < 2 ^ 63) (hdb : dbase + dlen < 2 ^ 63) (hsl : src.length ≤ dlen)
     (toff h hf c y : Nat) (dc tc : List Nat) (s : State) (hhf : hf < 2 ^ 63)
-    (st : LadSt M2 dbase dlen tp sp toff (Wblk jb 0) h hf src.length 2 c y dc tc s) (hlen : 16 * c + 128 ≤ src.length) :
+    (st : LadSt M2 dbase dlen tp sp toff (Wblk jb 0) h hf src 2 c y dc tc s) (hlen : 16 * c + 128 ≤ src.length) :
     ∃ s' N, N ≤ 700 ∧ Reach r k s k s' N ∧
-      LadSt M2 dbase dlen tp sp toff (Wblk jb 0) h hf src.length 2 (c + 8)
+      LadSt M2 dbase dlen tp sp toff (Wblk jb 0) h hf src 2 (c + 8)
         (if hf = 0 then y else ghN4 h 2 y (xorN ((src.drop (16 * c)).take 128) (ksN rk jb c 8)))
         (spliceAt dc (16 * c) (xorN ((src.drop (16 * c)).take 128) (ksN rk jb c 8))) tc s' ∧
       KeepsM ladKeepG ladKeepV (List.range 8) s s' := by
@@ -57,7 +57,7 @@ theorem x8_step (r : Routine) (k b : Nat) (hs : Slice r k (ladX8Code b))
   have k0 : KeepsM (List.range 16) (List.range 32) (List.range 8) s s0 := keepsM_setFlags _ _ _ s _
   have pc0 : PCtx s0 := st.pc.of_keepsM k0 (by decide)
   obtain ⟨s1, hr1, m1, reg9, reg7, ctr1, g15, k1⟩ := x8A_spec s0 pc0 rk jb src hrk hrkb hjb hjbb hsb (fun d => M2 d tc) dbase dlen sp
-    (lm.m2.bufD tc st.htc) (fun d hd => lm.src d tc hd st.htc) (fun d i hd hi => lm.rk d tc i hd st.htc hi) dc st.hdc st.mem c st.ctr st.rkp
+    (lm.m2.bufD tc st.htc) (fun d i hd hi => lm.rk d tc i hd st.htc hi) dc st.hdc st.mem c (st.srcOK tc st.htc) st.ctr st.rkp
     st.g10 st.g13 hlen (by omega) hsp hdb
   have r1 : Reach r (k + 2) s0 (k + 2 + 566) s1 566 := by
     have := reach_seg sA x8A_nc hr1; rw [x8A_len] at this; exact this
@@ -124,7 +124,7 @@ theorem x8_step (r : Routine) (k b : Nat) (hs : Slice r k (ladX8Code b))
   have hm4 : s4.mem = M2 (spliceAt dc (16 * c) (xorN ((src.drop (16 * c)).take 128) (ksN rk jb c 8))) tc := by
     rw [k4.mem, m3]; exact m1
   refine ⟨st.pc.of_keepsM kA pRegs_lad, st.gh.of_keepsM kA ghRegs_lad, (kA.g 15 (by decide)).trans st.rkp, (kA.g 0 (by decide)).trans st.g0,
-    ?_, ?_, ?_, (kA.g 6 (by decide)).trans st.g6, ?_, ?_, ?_, hm4, ?_, st.htc⟩
+    ?_, ?_, ?_, (kA.g 6 (by decide)).trans st.g6, ?_, ?_, ?_, hm4, ?_, st.htc, ?_⟩
   · rw [g9]; omega
   · rw [g10]; omega
   · rw [g13]; omega
@@ -133,5 +133,8 @@ theorem x8_step (r : Routine) (k b : Nat) (hs : Slice r k (ladX8Code b))
   · rw [k4.v 21 (by decide)]; exact y3
   · rw [← y3]; exact lt3
   · rw [spliceAt_length _ _ _ (by rw [xorN_length, ksN_length, List.length_take, List.length_drop, st.hdc]; omega)]; exact st.hdc
+  · intro t ht
+    exact (lm.adv dc t (16 * c) 128 _ st.hdc ht (by rw [xorN_length, ksN_length, List.length_take, List.length_drop]; omega) (by omega)
+      (st.srcOK t ht)).mono _ (by omega)
 
 end SMGo.Proofs.ISAVal
